@@ -529,6 +529,15 @@ func Processed(j *job.Job, s *job.Sink) {
 			}
 			texts[m.Name+".yang"] = b.String()
 		}
+		// One set in three also has a module whose submodule includes another one that the
+		// module itself does not list (nested includes): linking reads the include lists and
+		// must leave them as they were written.
+		if c%3 == 0 {
+			texts["zznest.yang"] = "module zznest {\n  namespace \"urn:zznest\";\n  prefix zn;\n  include zznesta;\n  leaf top { type ta; }\n}\n"
+			texts["zznesta.yang"] = "submodule zznesta {\n  belongs-to zznest { prefix zn; }\n  include zznestb;\n  typedef ta { type tb; }\n  leaf la { type string; }\n}\n"
+			texts["zznestb.yang"] = "submodule zznestb {\n  belongs-to zznest { prefix zn; }\n  typedef tb { type int8; }\n  leaf lb { type string; }\n}\n"
+			s.Count("processed_sets_with_nested_includes", 1)
+		}
 		var names []string
 		for n := range texts {
 			names = append(names, n)
